@@ -278,7 +278,7 @@ fn long_cases() -> Vec<(Case, bool)> {
 fn evaluated_chains(ctx: &Ctx) -> Vec<(Case, bool)> {
     let mut out = vec![];
     let mut t = sdmodel::tape::tape_from_seed(ctx.sub_seed("evaluated_chains", 0), 200_000);
-    let rounds = ctx.n(60, 2_000);
+    let rounds = ctx.n(300, 2_000);
     for n in [3usize, 5, 9, 16, 17, 18, 24, 32, 33, 40, 64] {
         for _ in 0..rounds {
             // Logical tier.
@@ -414,7 +414,7 @@ fn value_check(ctx: &Ctx, n: u64) {
 }
 
 pub fn run(ctx: &Ctx) {
-    ctx.set_rule("(a) every sequence of 1..3 (thorough: 4) binary operators over all 16 (incl. `..`) with operand shapes rotating over names, calls, index, range-index, .name, ->name and negative literals: parsed tree == grouping computed from the tier table; (b) random deep expression trees over every syntactic form printed with minimal, full and random redundant parentheses in random layouts: parsed tree == written tree; (c) literal-minus and parenthesis-override catalogue; (d) value-level cross-check of flat integer sequences through the binary against the reference. Non-trivial = >= 2 operators with two different tiers or operators; distinct = distinct source texts");
+    ctx.set_rule("(a) every sequence of 1..3 (thorough: 4) binary operators over all 16 (incl. `..`) with operand shapes rotating over names, calls, index, range-index, .name, ->name and negative literals: parsed tree == grouping computed from the tier table; (b) random deep expression trees over every syntactic form printed with minimal, full and random redundant parentheses in random layouts: parsed tree == written tree; (c) literal-minus and parenthesis-override catalogue; (d) value-level cross-check of flat integer sequences through the binary against the reference; flat chains of 17..64 operands and 64 nested parentheses as trees; evaluated chains of 3..64 operands per tier against the left fold / the fully parenthesised chain. Non-trivial = >= 2 operators with two different tiers or operators; distinct = distinct source texts");
     ctx.replay_corpus(None);
     if !worker_available() {
         ctx.note("in-process back-end unavailable: tree checks skipped, only the value-level cross-check ran");
